@@ -5,6 +5,43 @@ from . import sched as S
 from .explore import Stats, explore_subtree, root_and_children, HarnessError, digest
 
 
+class EvaluationHang(BaseException):
+    """a single evaluation of a sequential check did not come back (raised from the SIGALRM handler)"""
+
+
+class deadline(object):
+    """with deadline(s): ... - EvaluationHang if the block runs longer than s seconds of real time.
+    Sequential checks have no scheduler that could notice a library loop that never ends; evaluations take micro- to
+    milliseconds, the limits used are seconds, so machine load cannot trip it. Main thread only (no-op elsewhere)."""
+    def __init__(self, seconds):
+        self.seconds = seconds
+        self.active = False
+
+    def _alarm(self, signum, frame):
+        raise EvaluationHang()
+
+    def __enter__(self):
+        import signal
+        import threading
+        if threading.current_thread() is threading.main_thread():
+            self.active = True
+            import time
+            self.old = signal.signal(signal.SIGALRM, self._alarm)
+            self.t0 = time.monotonic()
+            self.outer = signal.setitimer(signal.ITIMER_REAL, self.seconds)[0]     # an enclosing deadline's remaining time (0: none)
+        return self
+
+    def __exit__(self, *exc):
+        if self.active:
+            import signal
+            import time
+            signal.setitimer(signal.ITIMER_REAL, 0)
+            signal.signal(signal.SIGALRM, self.old)
+            if self.outer > 0:
+                signal.setitimer(signal.ITIMER_REAL, max(0.01, self.outer - (time.monotonic() - self.t0)))     # re-arm the enclosing deadline
+        return False
+
+
 def pyro_modules():
     from Pyro5 import server, client, socketutil, svr_threads, svr_multiplex, nameserver, protocol, core
     return dict(server=server, client=client, socketutil=socketutil, svr_threads=svr_threads,
